@@ -24,20 +24,22 @@ inductive Pipe where
 
 instance : Inhabited Pipe := ⟨.hot 0⟩
 
-/-- Instantiated pipeline = what `actual_subscribe` builds. -/
+/-- Instantiated pipeline = what `actual_subscribe` builds.  `started` records
+    that the source side of the node has been subscribed (cold sources emit and
+    `start_with` writes its values at that moment, once). -/
 inductive Node where
-  | hot (i : Nat) (alive : Bool)          -- `Subscriber` slot pushed into subject i
-  | cold (s : Src) (alive : Bool)         -- `create` owns a `Subscriber` slot; others: `()`
+  | hot (i : Nat) (alive : Bool)            -- `Subscriber` slot pushed into subject i
+  | cold (s : Src) (started alive : Bool)   -- `create` owns a `Subscriber` slot; others: `()`
   | n1 (st : St1) (c : Node)
-  | startWith (vs : List Val) (c : Node)
+  | startWith (vs : List Val) (started : Bool) (c : Node)
   | n2 (st : St2) (a b : Node)
 
 def Pipe.instantiate : Pipe → Node
   | .hot i => .hot i true
-  | .src s => .cold s true
+  | .src s => .cold s false true
   | .defer p => p.instantiate
   | .op1 o p => .n1 o.init p.instantiate
-  | .startWith vs p => .startWith vs p.instantiate
+  | .startWith vs p => .startWith vs false p.instantiate
   | .op2 k a b => .n2 k.init a.instantiate b.instantiate
 
 /-- Position of a node in the tree. -/
@@ -53,68 +55,79 @@ namespace Node
 
 /-- A subject calling the `Subscriber` it holds: items pass while the slot is
     full; a terminal is delivered only if `!p_is_closed()` and empties the slot. -/
-def hotDeliver (downFin : Bool) : Bool → List Notif → Bool × List Notif
-  | alive, [] => (alive, [])
-  | alive, .next v :: r =>
-      let (al, o) := hotDeliver downFin alive r
-      (al, (if alive then [.next v] else []) ++ o)
-  | alive, t :: _ => if alive && !downFin then (false, [t]) else (alive, [])
+def hotDeliver (downFin : Bool) (alive : Bool) : Notif → Bool × List Notif
+  | .next v => (alive, if alive then [.next v] else [])
+  | t => if alive && !downFin then (false, [t]) else (alive, [])
 
-/-- Inject `ns` at the node addressed by `path` and push the result root-wards.
-    Returns the new tree and what leaves its root.  `downFin` is the answer of
-    the observer below the root of this subtree to `is_finished`. -/
-def inject : Node → Path → Bool → List Notif → Node × List Notif
-  -- a subject calls the subscriber it holds
-  | hot i alive, _, downFin, ns =>
-      let (al, o) := hotDeliver downFin alive ns
+/-- Subject → subscriber at `path`: push `n` root-wards through every observer
+    on the way.  Returns the new tree and what leaves its root.  `downFin` is the
+    answer of the observer below this subtree to `is_finished`. -/
+def deliver : Node → Path → Bool → Notif → Node × List Notif
+  | hot i alive, [], downFin, n =>
+      let (al, o) := hotDeliver downFin alive n
       (hot i al, o)
-  -- a cold source calls its observer directly (`create`: through its slot)
-  | cold s alive, _, _, ns =>
-      match s with
-      | .create _ => (cold s (alive && !terminated ns), if alive then gate ns else [])
-      | _ => (cold s alive, ns)
-  | n1 st c, .down :: p, downFin, ns =>
-      let (c', o) := inject c p (st.finished downFin) ns
+  | hot i alive, _ :: _, _, _ => (hot i alive, [])
+  | cold s st al, _, _, _ => (cold s st al, [])
+  | n1 st c, .down :: p, downFin, n =>
+      let (c', o) := deliver c p (st.finished downFin) n
       let (st', o') := st.run o
       (n1 st' c', o')
   | n1 st c, _, _, _ => (n1 st c, [])
-  -- start_with writes to its downstream observer itself
-  | startWith vs c, [], _, ns => (startWith vs c, ns)
-  | startWith vs c, .down :: p, downFin, ns =>
-      let (c', o) := inject c p downFin ns
-      (startWith vs c', o)
-  | startWith vs c, _, _, _ => (startWith vs c, [])
-  | n2 st a b, .left :: p, downFin, ns =>
-      let (a', o) := inject a p (st.finished .a downFin) ns
+  | startWith vs started c, .down :: p, downFin, n =>
+      -- before `start_with` has subscribed its source nothing can reach it
+      if started then
+        let (c', o) := deliver c p downFin n
+        (startWith vs started c', o)
+      else (startWith vs started c, [])
+  | startWith vs started c, _, _, _ => (startWith vs started c, [])
+  | n2 st a b, .left :: p, downFin, n =>
+      let (a', o) := deliver a p (st.finished .a downFin) n
       let (st', o') := st.run .a o
       (n2 st' a' b, o')
-  | n2 st a b, .right :: p, downFin, ns =>
-      let (b', o) := inject b p (st.finished .b downFin) ns
+  | n2 st a b, .right :: p, downFin, n =>
+      let (b', o) := deliver b p (st.finished .b downFin) n
       let (st', o') := st.run .b o
       (n2 st' a b', o')
   | n2 st a b, _, _, _ => (n2 st a b, [])
 
-/-- The work `actual_subscribe` performs, in the order it performs it: each
-    entry is (path, what is injected there).  Hot leaves inject nothing. -/
-def startPlan : Node → List (Path × List Notif)
-  | hot _ _ => []
-  | cold s _ => [([], s.emit)]
-  | n1 _ c => (startPlan c).map fun (p, ns) => (.down :: p, ns)
-  | startWith vs c =>
-      ([], vs.map .next) :: (startPlan c).map fun (p, ns) => (.down :: p, ns)
+/-- The work `actual_subscribe` performs, in the order it performs it: cold
+    sources emit synchronously through the observers already built, `start_with`
+    writes its values before subscribing its source, two-input operators
+    subscribe their inputs in their own order.  Hot leaves only register. -/
+def start : Node → Node × List Notif
+  | hot i alive => (hot i alive, [])
+  | cold s started alive =>
+      if started then (cold s started alive, [])
+      else (cold s true (alive && !terminated s.emit), s.emit)
+  | n1 st c =>
+      let (c', o) := start c
+      let (st', o') := st.run o
+      (n1 st' c', o')
+  | startWith vs started c =>
+      let (c', o) := start c
+      if started then (startWith vs true c', o)
+      else (startWith vs true c', vs.map .next ++ o)
   | n2 st a b =>
-      let pa := (startPlan a).map fun (p, ns) => (Dir.left :: p, ns)
-      let pb := (startPlan b).map fun (p, ns) => (Dir.right :: p, ns)
       match st.firstSide with
-      | .a => pa ++ pb
-      | .b => pb ++ pa
+      | .a =>
+        let (a', oa) := start a
+        let (st1, o1) := st.run .a oa
+        let (b', ob) := start b
+        let (st2, o2) := st1.run .b ob
+        (n2 st2 a' b', o1 ++ o2)
+      | .b =>
+        let (b', ob) := start b
+        let (st1, o1) := st.run .b ob
+        let (a', oa) := start a
+        let (st2, o2) := st1.run .a oa
+        (n2 st2 a' b', o1 ++ o2)
 
 /-- Paths of the subscribers of subject `i`, in subscription order. -/
 def hotPaths (i : Nat) : Node → List Path
   | hot j _ => if i = j then [[]] else []
-  | cold _ _ => []
+  | cold _ _ _ => []
   | n1 _ c => (hotPaths i c).map (.down :: ·)
-  | startWith _ c => (hotPaths i c).map (.down :: ·)
+  | startWith _ _ c => (hotPaths i c).map (.down :: ·)
   | n2 st a b =>
       let pa := (hotPaths i a).map (Dir.left :: ·)
       let pb := (hotPaths i b).map (Dir.right :: ·)
@@ -122,40 +135,50 @@ def hotPaths (i : Nat) : Node → List Path
       | .a => pa ++ pb
       | .b => pb ++ pa
 
-/-- Run a list of injections in order. -/
-def injectAll (nd : Node) : List (Path × List Notif) → Node × List Notif
-  | [] => (nd, [])
-  | (p, ns) :: r =>
-    let (nd1, o1) := nd.inject p false ns
-    let (nd2, o2) := injectAll nd1 r
-    (nd2, o1 ++ o2)
-
 /-- `Subscription::unsubscribe` of the value `actual_subscribe` returned. -/
 def unsub : Node → Node
   | hot i _ => hot i false
-  | cold (.create sc) _ => cold (.create sc) false
-  | cold s alive => cold s alive
+  | cold (.create sc) st _ => cold (.create sc) st false
+  | cold s st alive => cold s st alive
   | n1 st c => n1 st c.unsub
-  | startWith vs c => startWith vs c.unsub
+  | startWith vs st c => startWith vs st c.unsub
   | n2 st a b => n2 st a.unsub b.unsub
 
 /-- `Subscription::is_closed` of the value `actual_subscribe` returned. -/
 def isClosed : Node → Bool
   | hot _ alive => !alive
-  | cold (.create _) alive => !alive
-  | cold _ _ => true
+  | cold (.create _) _ alive => !alive
+  | cold _ _ _ => true
   | n1 _ c => c.isClosed
-  | startWith _ c => c.isClosed
-  | n2 _ _ b => b.isClosed       -- ZipSubscription::is_closed looks at its second half only
+  | startWith _ _ c => c.isClosed
+  | n2 _ a b => a.isClosed && b.isClosed   -- ZipSubscription (after `fix: ZipSubscription::is_closed`)
 
 /-- `tap` call counters, in construction order (source-most operator first). -/
 def taps : Node → List Nat
   | hot _ _ => []
-  | cold _ _ => []
+  | cold _ _ _ => []
   | n1 (.tap c) ch => taps ch ++ [c]
   | n1 _ ch => taps ch
-  | startWith _ ch => taps ch
+  | startWith _ _ ch => taps ch
   | n2 _ a b => taps a ++ taps b
+
+/-- What can happen to an instantiated pipeline. -/
+inductive Act where
+  | start
+  | deliver (p : Path) (downFin : Bool) (n : Notif)
+  | unsub
+
+def act (nd : Node) : Act → Node × List Notif
+  | .start => nd.start
+  | .deliver p df n => nd.deliver p df n
+  | .unsub => (nd.unsub, [])
+
+def runActs (nd : Node) : List Act → Node × List Notif
+  | [] => (nd, [])
+  | a :: r =>
+    let (nd1, o1) := nd.act a
+    let (nd2, o2) := runActs nd1 r
+    (nd2, o1 ++ o2)
 
 end Node
 
@@ -181,24 +204,46 @@ namespace World
 
 def init (p : Pipe) : World := { pipe := p, terminated := [], root := none }
 
+/-- The node-level actions an external event amounts to. -/
+def acts (w : World) : Ext → List Node.Act
+  | .sub => [.start]
+  | .emit i n =>
+      if w.terminated.contains i then []
+      else match w.root with
+        | some nd => (nd.hotPaths i).map fun p => .deliver p false n
+        | none => []
+  | .unsub => [.unsub]
+  | _ => []
+
 def step (w : World) : Ext → World × Obs
   | .sub =>
-      let nd := w.pipe.instantiate
-      let (nd', o) := nd.injectAll nd.startPlan
-      ({ w with root := some nd' }, .out o)
+      match w.root with
+      | some _ => (w, .out [])              -- a case subscribes its pipeline once
+      | none =>
+        let (nd', o) := w.pipe.instantiate.runActs (w.acts .sub)
+        ({ w with root := some nd' }, .out o)
   | .emit i n =>
-      if w.terminated.contains i then (w, .out [])
-      else
-        let w' := if n.isTerm then { w with terminated := i :: w.terminated } else w
-        match w.root with
-        | none => (w', .out [])
-        | some nd =>
-          let (nd', o) := nd.injectAll ((nd.hotPaths i).map fun p => (p, [n]))
-          ({ w' with root := some nd' }, .out o)
+      let w' := if n.isTerm && !w.terminated.contains i
+                then { w with terminated := i :: w.terminated } else w
+      match w.root with
+      | none => (w', .out [])
+      | some nd =>
+        let (nd', o) := nd.runActs (w.acts (.emit i n))
+        ({ w' with root := some nd' }, .out o)
   | .unsub =>
-      ({ w with root := w.root.map Node.unsub }, .out [])
+      match w.root with
+      | none => (w, .out [])
+      | some nd => ({ w with root := some (nd.runActs (w.acts .unsub)).1 }, .out [])
   | .qClosed => (w, .closed (match w.root with | some nd => nd.isClosed | none => true))
   | .qTap => (w, .tap (match w.root with | some nd => nd.taps | none => []))
+
+/-- Run a whole event list; the probe log is the concatenation of the outputs. -/
+def run (w : World) : List Ext → World × List Notif
+  | [] => (w, [])
+  | e :: r =>
+    let (w1, o) := w.step e
+    let (w2, os) := run w1 r
+    (w2, (match o with | .out ns => ns | _ => []) ++ os)
 
 end World
 end Rx
